@@ -76,6 +76,15 @@ Definition final_same (obs : final) (mine : Z -> option (list view)) : bool :=
 
 Record ccase := { cc_hist : list (request * response); cc_final : final }.
 
+(* short constructor names for the generated case files (plain applications elaborate much faster
+   than record notation) *)
+Definition CC := Build_ccase.
+Definition M := Build_meta.
+Definition M0 := meta0.
+Definition V := Build_view.
+Definition KV := Build_kv.
+Definition IM := Build_imeta.
+
 (* ---------- oracle ---------- *)
 Fixpoint oracle (t : sstate) (cls : Z) (h : list (request * response)) : Z * sstate * Z * bool :=
   (* result: code, final spec state, class, completed *)
